@@ -14,4 +14,5 @@ var Registry = map[string]Prop{
 	"C09": {C09, c09Replay},
 	"C10": {C10, c10Replay},
 	"C11": {C11, c11Replay},
+	"C14": {C14, c14Replay},
 }
